@@ -409,6 +409,19 @@ fn items(tier: Tier) -> &'static Vec<Item> {
             }
         }
         v.push(Item::Srv(SrvScenario { n: 32, split: None }, Mode::Strict, 0));
+        // magnitudes: far more simultaneous connections than any plausible fixed ceiling
+        // (default schedule only)
+        // (two bursts separated by quiescence: during one burst at the default schedule the new
+        // workers have not run yet, so the pool's counters still show the old population)
+        v.push(Item::Pool(PoolScenario { init: Init::Idle, bursts: vec![1100], finish_between: false }, Mode::Strict, 0));
+        v.push(Item::Pool(PoolScenario { init: Init::Idle, bursts: vec![1100, 60], finish_between: false }, Mode::Strict, 0));
+        v.push(Item::Srv(SrvScenario { n: 1100, split: None }, Mode::Strict, 0));
+        v.push(Item::Srv(SrvScenario { n: 1160, split: Some(1100) }, Mode::Strict, 0));
+        if thorough {
+            v.push(Item::Pool(PoolScenario { init: Init::Idle, bursts: vec![4200], finish_between: false }, Mode::Strict, 0));
+            v.push(Item::Pool(PoolScenario { init: Init::Fresh, bursts: vec![2100, 2100], finish_between: false }, Mode::Strict, 0));
+            v.push(Item::Srv(SrvScenario { n: 2100, split: Some(1024) }, Mode::Strict, 0));
+        }
         if thorough {
             v.push(Item::Srv(SrvScenario { n: 64, split: None }, Mode::Strict, 0));
             v.push(Item::Srv(SrvScenario { n: 64, split: Some(33) }, Mode::Strict, 0));
@@ -459,8 +472,8 @@ impl Check for C08 {
     }
     fn rule(&self, tier: Tier) -> String {
         format!(
-            "(a) real TaskPool: initial state {{fresh, all 4 idle, 1/3/4 workers busy for ever, surplus workers idle in their timed wait, surplus workers whose 5 s idle timeout is due, surplus workers retired after 6 s of idleness}} x dispatch pattern {{one burst of 1,2,3,4,5,6,8 tasks; two bursts (1,4) (4,1) (2,3) (4,4) (3,3) separated by quiescence, the first burst's tasks finishing in between or not}}; every task records its start and then stays open on a harness gate; (b) real Server with N in {{1,4,5,6,8,32{}}} keep-alive connections sending one request each and staying open, in one burst or two; {} scenarios, explored for all schedules with at most {} deviations (strict costs; a spurious return from a condition-variable wait is one of the deviations), window = the burst; oracle at quiescence: every dispatched task has started / every connection has its response while all others are still open, each task started once, one open task per worker; non-trivial = all",
-            if tier == Tier::Thorough { ",64" } else { "" }, items(tier).len(), if tier == Tier::Thorough { "3 (<= 2 tasks) / 2 (<= 6 tasks) / 1 (pool), 2 (server N<=5) / 1 (N<=8) / 0" } else { "2 (<= 3 tasks) / 1 (<= 6 tasks) / 0 (pool), 1 (server N<=5) / 0" }
+            "(a) real TaskPool: initial state {{fresh, all 4 idle, 1/3/4 workers busy for ever, surplus workers idle in their timed wait, surplus workers whose 5 s idle timeout is due, surplus workers retired after 6 s of idleness}} x dispatch pattern {{one burst of 1,2,3,4,5,6,8 tasks; two bursts (1,4) (4,1) (2,3) (4,4) (3,3) separated by quiescence, the first burst's tasks finishing in between or not}}; every task records its start and then stays open on a harness gate; (b) real Server with N in {{1,4,5,6,8,32,1100{}}} keep-alive connections (in one burst and as 1100 + 60; bursts of 1100 and 1100 + 60 tasks on the pool; thorough: 4200, 2 x 2100) sending one request each and staying open, in one burst or two; {} scenarios, explored for all schedules with at most {} deviations (strict costs; a spurious return from a condition-variable wait is one of the deviations), window = the burst; oracle at quiescence: every dispatched task has started / every connection has its response while all others are still open, each task started once, one open task per worker; non-trivial = all",
+            if tier == Tier::Thorough { ",64,2100" } else { "" }, items(tier).len(), if tier == Tier::Thorough { "3 (<= 2 tasks) / 2 (<= 6 tasks) / 1 (pool), 2 (server N<=5) / 1 (N<=8) / 0" } else { "2 (<= 3 tasks) / 1 (<= 6 tasks) / 0 (pool), 1 (server N<=5) / 0" }
         )
     }
     fn replay(&self, replay: &Value, acc: &mut Acc) {
